@@ -126,6 +126,16 @@ def run_case(case):
         except Exception as ex:
             d._conn.rollback()
             return [(f'import-raised-{type(ex).__name__}:{"open-range" if 400 in (r["from"], r["to"]) else "closed-range"}', f'{label}: import raised {type(ex).__name__}: {ex}')]
+        # Schedule.tla RowsAreValues: the parsed row handed to the database is the caller's - after the import it still says
+        # what the schedule line says (an open end stays open: the same row put to the database of another year means
+        # THAT year's start / end)
+        if e is not None:
+            import dataclasses
+
+            e2 = CSVEntry.from_csv_row(csv_row(r), line)
+            changed = [f.name for f in dataclasses.fields(e) if getattr(e, f.name) != getattr(e2, f.name)]
+            if changed:
+                return [('row-modified', f'{label}: after the import the parsed row differs from the schedule line in {changed} ({[(getattr(e2, n), getattr(e, n)) for n in changed][:3]})')]
         after = cur.execute('SELECT COALESCE(MAX(id), 0) FROM flights').fetchone()[0]
         imported = bool(ok) and after > before
         if imported != bool(case['imported']):
